@@ -138,6 +138,8 @@ class Space:
     def programs(self, n):
         if n == 'E':
             return E_PROGRAMS
+        if n == 'I':
+            return I_PROGRAMS
         return self.B(n, False)
 
 
@@ -154,7 +156,7 @@ def rx(e) -> str:
 
 def subblocks(st):
     op = st[0]
-    if op in ('let', 'rete'):
+    if op in ('let', 'rete', 'iset'):
         return ()
     if op in XCOMPOUND:
         return st[2:]
@@ -169,6 +171,8 @@ def render_block(block, indent: int, out: list):
             out.append(f"{pad}{st[1] if isinstance(st[1], str) else ', '.join(st[1])} = {rx(st[2])}")
         elif op == 'rete':
             out.append(f'{pad}return {rx(st[1])}')
+        elif op == 'iset':       # indexed assignment: the base name st[1] is a use, nothing is bound
+            out.append(f'{pad}{st[1]}[{rx(st[2])}] = {rx(st[3])}')
         elif op in ('if1x', 'ifex'):
             out.append(f'{pad}if {rx(st[1])}:')
             render_block(st[2], indent + 4, out)
@@ -238,7 +242,7 @@ def constructs(block, acc=None) -> set:
 #
 # Expressions: ('n', name) | ('op', format, e...) (operands evaluated left to right) |
 # ('comp', elt, ((target names, target text, iterable), ...)).
-# Statements: ('let', name, e) | ('rete', e) | ('if1x', cond, body) | ('ifex', cond, then, else) |
+# Statements: ('let', name, e) | ('rete', e) | ('iset', base name, index e, value e) (`base[index] = value`) | ('if1x', cond, body) | ('ifex', cond, then, else) |
 # ('forx', iterable, body) (target z) | ('whilex', cond, body) (with the built-in k = k + 1).
 # E = prefix x comprehension x shape x probe name: the probe R is read outside the comprehension --
 # a later/earlier operand or argument of the same expression, the arms of an `if` whose condition
@@ -351,3 +355,66 @@ def _family_w():
 
 W_PROGRAMS = _family_w()
 E_PROGRAMS = _family_e() + W_PROGRAMS
+
+
+# ---- family I: an indexed assignment `R[0] = u` as the USE site of R --------
+#
+# <binding shape of R>; <R[0] = u at a use position>; return u | return R[0]
+# `R[0] = u` binds nothing and reads R (it updates the list R already names), so it is judged like a
+# plain read of R.  Binding shapes = every way the rest of the space binds a name: nowhere, before
+# (control), only in a one-armed `if`, in one / both arms of `if`/`else`, in one arm whose sibling
+# returns, only in a `for` / `for-enumerate` / `while` body, as the loop target (R = x), as a
+# comprehension variable (R = x), inside `with` (control), by a tuple pattern (control).
+# Use positions: straight after, or nested in a one-armed `if`, an `if`/`else` arm, a `for` body, a
+# `while` body, a `with` body.  Plus: use before the binding in the same loop body (first trip unbound),
+# and binding + use in the same loop body (control).  The tail `return u` reads no local, so nothing
+# but the indexed assignment can make the front end reject the program.
+
+I_NAMES = ('a', 'x')
+
+
+def _family_i():
+    out = []
+    for r in I_NAMES:
+        R = N(r)
+        bind = ('let', r, OP('[{}, {}]', N('u'), N('v')))
+        use = ('iset', r, OP('0'), N('u'))
+        pas, retu = ('pass',), ('ret_u',)
+        prefixes = (
+            (),                                                   # never bound
+            (bind,),                                              # control: bound on every path
+            (('if1', (bind,)),),
+            (('ife', (bind,), (pas,)),),
+            (('ife', (pas,), (bind,)),),
+            (('ife', (bind,), (bind,)),),                         # control
+            (('ife', (bind,), (retu,)),),                         # control: the sibling arm returns
+            (('for', (bind,)),),                                  # for r = x this rebinds the target in the body
+            (('fore', (bind,)),),
+            (('k=0',), ('while', (bind,))),
+            (('for', (pas,)),),                                   # r = x: loop target after the loop
+            (('fore', (pas,)),),
+            (('b=comp',),),                                       # r = x: comprehension variable afterwards
+            (('with', (bind,)),),                                 # control: with-as does not scope
+            (('let', (r, 'w'), OP('([{}, {}], {})', N('u'), N('v'), N('v'))),),     # control: tuple pattern
+        )
+        uses = (
+            (use,),
+            (('if1', (use,)),),
+            (('ife', (use,), (pas,)),),
+            (('for', (use,)),),
+            (('k=0',), ('while', (use,))),
+            (('with', (use,)),),
+        )
+        for pre in prefixes:
+            for us_ in uses:
+                for post in (retu, ('rete', OP('{}[0]', R))):
+                    out.append(pre + us_ + (post,))
+        for loop in ('for', 'fore', 'while'):
+            k0 = (('k=0',),) if loop == 'while' else ()
+            for body in ((use, bind), (bind, use), (('if1', (bind,)), use)):
+                for post in (retu,):
+                    out.append(k0 + ((loop, body), post))
+    return list(dict.fromkeys(out))
+
+
+I_PROGRAMS = _family_i()
